@@ -773,6 +773,9 @@ class StmtMixin:
                     if o.kind in ("ok", "cnt", "brk", "ret"):
                         o = Out(o.kind, self.check_steps(o.st, ls, it0, is_ret=(o.kind == "ret")), o.val)
                     if o.kind in ("ok", "cnt"):
+                        if ls.post_hints:
+                            o = Out(o.kind, o.st.copy(), o.val)
+                            self.apply_hints(o.st, ls.post_hints, self.inv_env(o.st, ls))
                         s3 = self.check_invs(o.st, ls, "inv_pres")
                         if v0 is not None:
                             v1 = self.num(self.spec_eval(self.inv_env(s3, ls), ls.decreases))
@@ -886,6 +889,8 @@ class StmtMixin:
                           f"seq{ord_}": VSeq(seq_t, ek)}
                     s3 = o.st.copy()
                     s3.ghost.update(g2)
+                    if ls.post_hints:
+                        self.apply_hints(s3, ls.post_hints, self.inv_env(s3, ls))
                     self.check_invs(s3, ls, "inv_pres", g2)
                 elif o.kind == "brk":
                     outs.append(Out("ok", o.st))
